@@ -1021,6 +1021,152 @@ class TreeMon(object):
 
 
 # ---------------------------------------------------------------------------------------
+# modules supp IMPORTS instead of analysing: compiled extensions inside packages, dyn_modules
+
+RUNTIME_EXTS = ('_bisect', '_heapq', '_struct')        # small multi-phase-init extensions: load again under any package
+
+
+def gen_runtime_layout(rng, compiled, top):
+    """a package ``top`` (a name never used before in this process) with 0-2 nested sub-packages; real
+    extension modules linked into some of them under their own module name; one source module that is
+    listed in dyn_modules by its dotted name."""
+    exts = [e for e in RUNTIME_EXTS if e in compiled]
+    depth = rng.choice((1, 2, 2, 3))
+    chain = rng.sample(['sub', 'inner', '_', 'match', 'pa'], depth - 1)
+    picked = rng.sample(exts, min(len(exts), rng.choice((1, 2))))
+    return {'top': top, 'chain': chain, 'ext': [[rng.randrange(depth), e] for e in picked],
+            'dyn': [rng.randrange(depth), 'plain'], 'first': rng.choice(('get_module', 'assist'))}
+
+
+def run_runtime(part, layout):
+    """supp is asked FIRST (the module is not in sys.modules yet), then importlib really imports the same
+    dotted name: the module supp hands out must be that module, and completion after
+    'from pkg.sub import _heapq' + '_heapq.' must offer its attributes, not the package's."""
+    from supp.project import Project
+    from supp.assistant import assist
+    from supp.evaluator import EvalCtx
+    from supp.module import ImportedModule
+    top, chain = layout['top'], layout['chain']
+    if top in sys.modules or any(k.startswith(top + '.') for k in sys.modules):
+        part.count('filtered:runtime-layout-name-already-loaded')
+        return
+    base = tempfile.mkdtemp(prefix='vf-')
+    root = os.path.join(base, 'rt')
+    pk = [top] + chain
+
+    def dotted(k, leaf):
+        return '.'.join(pk[:k + 1] + [leaf])
+    try:
+        d = root
+        for k, name in enumerate(pk):
+            d = os.path.join(d, name)
+            os.makedirs(d)
+            with open(os.path.join(d, '__init__.py'), 'w') as f:
+                f.write('IN_PKG_%d = 1\n' % k)
+        targets = []
+        for k, ext in layout['ext']:
+            spec = PathFinder.find_spec(ext, list(sys.path))
+            if spec is None or not isinstance(spec.loader, importlib.machinery.ExtensionFileLoader):
+                part.count('filtered:runtime-layout-extension-missing')
+                continue
+            dest = os.path.join(root, *(pk[:k + 1] + [os.path.basename(spec.origin)]))
+            try:
+                os.symlink(spec.origin, dest)
+            except OSError:
+                shutil.copyfile(spec.origin, dest)
+            targets.append(('compiled-in-package', dotted(k, ext), ext, dest))
+        k, leaf = layout['dyn']
+        dest = os.path.join(root, *(pk[:k + 1] + [leaf + '.py']))
+        with open(dest, 'w') as f:
+            f.write('IN_PLAIN = 1\n')
+        targets.append(('dyn-source-module', dotted(k, leaf), leaf, dest))
+        sys.path.insert(0, root)
+        fresh_finders()
+        project = Project([root], dyn_modules=[t[1] for t in targets if t[0] == 'dyn-source-module'])
+        ctx = EvalCtx(project)
+        client = os.path.join(root, 'main.py')
+        for kind, name, leaf, dest in targets:
+            case = {'type': 'runtime', 'layout': layout, 'name': name}
+            part.hist('runtime_import_kind', '%s:%d-components' % (kind, len(name.split('.'))))
+            if name in sys.modules:
+                part.count('filtered:runtime-module-already-loaded')
+                continue
+
+            def ask_get():
+                try:
+                    return project.get_module(name)
+                except Exception as e:
+                    return e
+
+            def ask_assist():
+                src = 'from %s import %s\n%s.' % (name.rpartition('.')[0], leaf, leaf)
+                try:
+                    return set(assist(project, src, (2, len(leaf) + 1), client)[1])
+                except Exception as e:
+                    return e
+            if layout['first'] == 'assist':
+                props, got = ask_assist(), ask_get()
+            else:
+                got, props = ask_get(), ask_assist()
+            # the reference, AFTER supp was asked
+            try:
+                real = importlib.import_module(name)
+            except Exception as e:
+                part.count('filtered:runtime-module-does-not-load(%s)' % type(e).__name__)
+                continue
+            if not same_file(getattr(real, '__file__', None), dest) or real.__name__ != name:
+                part.count('filtered:runtime-reference-is-another-file')
+                continue
+            want = {a for a in vars(real) if a.isidentifier() and not a.startswith('__')}
+            part.count('runtime_imports_compared')
+            lab = 'runtime-import:%s:' + kind + ':'
+            what = '%s (%s, first asked through %s)' % (name, kind, layout['first'])
+            if isinstance(got, Exception):
+                part.violation(lab % 'get_module' + 'raises:' + type(got).__name__,
+                               'get_module(%r) raised %r; importlib loads %s' % (name, got, os.path.basename(dest)), case)
+            elif not isinstance(got, ImportedModule):
+                part.violation(lab % 'get_module' + 'not-a-runtime-module', 'get_module(%r) returned %r' % (name, got), case)
+            elif got.module is not real:
+                other = getattr(got.module, '__name__', repr(got.module))
+                sym = 'another-module-returned' + (':top-level-package' if other == top and name != top else '')
+                part.violation(lab % 'get_module' + sym, 'get_module of %s hands out module %r, importlib.import_module gives %r (%s)' % (
+                    what, other, real.__name__, os.path.basename(dest)), case)
+            else:
+                try:
+                    have = set(got.attr_list(ctx))
+                except Exception as e:
+                    have = None
+                    part.count('filtered:runtime-attr_list-raised(%s)' % type(e).__name__)
+                if have is not None and not want <= have:
+                    part.violation(lab % 'get_module' + 'attributes-missing', 'attribute list of %s lacks %s' % (
+                        what, sorted(want - have)[:5]), case)
+                else:
+                    part.count('agree:runtime-module-is-the-imported-one')
+            if isinstance(props, Exception):
+                part.count('filtered:runtime-assist-raised(%s)(C08)' % type(props).__name__)
+            else:
+                part.count('runtime_proposal_sets_compared')
+                foreign = sorted(a for a in props if a.startswith('IN_PKG_'))
+                if foreign:
+                    part.violation(lab % 'assist' + 'package-attributes-proposed',
+                                   "after 'from %s import %s' the completion of '%s.' offers %s of a package __init__, importlib: %s defines %s" % (
+                                       name.rpartition('.')[0], leaf, leaf, foreign, os.path.basename(dest), sorted(want)[:4]), case)
+                elif not want <= props:
+                    part.violation(lab % 'assist' + 'attributes-missing',
+                                   "after 'from %s import %s' the completion of '%s.' lacks %s (first asked through %s)" % (
+                                       name.rpartition('.')[0], leaf, leaf, sorted(want - props)[:5], layout['first']), case)
+                else:
+                    part.count('agree:runtime-proposals')
+    finally:
+        if root in sys.path:
+            sys.path.remove(root)
+        for k in [k for k in sys.modules if k == top or k.startswith(top + '.')]:
+            del sys.modules[k]
+        shutil.rmtree(base, ignore_errors=True)
+        fresh_finders()
+
+
+# ---------------------------------------------------------------------------------------
 # workers
 
 def environment():
@@ -1108,6 +1254,10 @@ def work_trees(arg):
             part.hist('trees_by_odd_name_kind', cat)
         part.count('trees_with_real_extension_in_a_root', 1 if ft['ext'] else 0)
         part.count('trees_with_non_source_module_shadowing_a_package_of_another_root', 1 if ft['ns_shadow'] else 0)
+        # one runtime-import layout per tree, under a package name this process has never seen
+        part.case(['runtime', seed, i], nontrivial=True)
+        run_runtime(part, gen_runtime_layout(random.Random('%s:C07:runtime:%d' % (seed, i)), env['compiled'],
+                                             'vfrt_%s_%d' % (seed, i)))
         base = tempfile.mkdtemp(prefix='vf-')
         try:
             try:
@@ -1160,6 +1310,10 @@ def main(run):
                                   "name: location() on 'name' must end in the file importlib resolves (or nowhere when importlib raises), assist on "
                                   "'name.' must propose that file's marker name and no other tree file's; candidate names exist at several levels "
                                   'of the importing file ancestry (level decoys)',
+        'runtime_imports': 'one layout per tree under a never-used package name, its root on sys.path: real extension modules '
+                           '(%s) linked into packages 1-3 levels deep, and a source module listed in dyn_modules by its dotted name; '
+                           'supp is asked first (get_module, or assist after "from pkg.sub import _heapq"), then importlib.import_module '
+                           'imports the same name: same module object, its attributes offered, no package __init__ attribute' % ', '.join(RUNTIME_EXTS),
         'proposals': "assist on 'import X.', 'from X.', 'from X import ' for every package and module of the tree, absent and "
                      'stdlib names, the top level, and relative packages; also after sourceless .pyc modules and real extension '
                      'modules placed in a root (both sides must say: not a package)',
@@ -1177,7 +1331,8 @@ def main(run):
                  'layouts_with_bare_directory_BEFORE_the_regular_package_or_module',
                  'layouts_with_bare_directory_AFTER_the_regular_package_or_module',
                  'use_locations_compared', 'use_attribute_sets_compared', 'agree:use-location-in-resolved-file',
-                 'agree:use-location-empty-where-importlib-raises', 'agree:use-attributes', 'required_children_soft_keyword'),
+                 'agree:use-location-empty-where-importlib-raises', 'agree:use-attributes', 'required_children_soft_keyword',
+                 'runtime_imports_compared', 'runtime_proposal_sets_compared', 'agree:runtime-module-is-the-imported-one'),
         assumptions=[
             'oracle = importlib.machinery.PathFinder.find_spec walked per component over roots + sys.path of the worker '
             'process, importlib.util.resolve_name, pkgutil.iter_modules (CPython %d.%d); meta-path finders other than '
@@ -1219,6 +1374,13 @@ def replay(run, path):
         if key in done:
             continue
         done.add(key)
+        if c.get('type') == 'runtime':
+            lk = json.dumps(c['layout'], sort_keys=True)
+            if lk not in done:
+                done.add(lk)
+                part.case(lk[:300], nontrivial=True)
+                run_runtime(part, c['layout'])
+            continue
         tree, order, q = c['tree'], c['order'], c['query']
         part.case(key[:300], nontrivial=True)
         base = tempfile.mkdtemp(prefix='vf-')
